@@ -138,9 +138,10 @@ func (ltx levelTransaction) Get(id []byte) ([]byte, error) {
 
 // View run iterator on bolt keyvalue store
 func (ltx levelTransaction) View(u func(it kvi.KVIterator) error) error {
-	it := ltx.db.NewIterator(nil, nil)
+	//iterate over the transaction, so that its own writes are visible
+	it := ltx.tx.NewIterator(nil, nil)
 	defer it.Release()
-	lit := levelIterator{ltx.db, it, true, nil, nil}
+	lit := levelIterator{ltx.db, it, true, nil, nil, ltx.tx}
 	return u(&lit)
 }
 
@@ -150,10 +151,14 @@ type levelIterator struct {
 	forward bool
 	key     []byte
 	value   []byte
+	tx      *leveldb.Transaction
 }
 
 // Get retrieves the value of key `id`
 func (lit *levelIterator) Get(id []byte) ([]byte, error) {
+	if lit.tx != nil {
+		return lit.tx.Get(id, nil)
+	}
 	return lit.db.Get(id, nil)
 }
 
@@ -233,7 +238,7 @@ func (lit *levelIterator) Valid() bool {
 func (l *LevelKV) View(u func(it kvi.KVIterator) error) error {
 	it := l.db.NewIterator(nil, nil)
 	defer it.Release()
-	lit := levelIterator{l.db, it, true, nil, nil}
+	lit := levelIterator{l.db, it, true, nil, nil, nil}
 	return u(&lit)
 }
 
